@@ -169,6 +169,7 @@ func runAPIFaultCase(c *Ctx, ac apiCase, tape *simrt.Tape) (vs []apiViolation, e
 				}
 				v, e := db.GetBytes([]byte(k))
 				evals++
+				Beat()
 				want, ok := model[k]
 				if errClass(e) == "error" {
 					add("get-error|"+normErr(e), fmt.Sprintf("%s: GetBytes(%q) failed: %v", when, head([]byte(k)), e))
@@ -214,6 +215,7 @@ func runAPIFaultCase(c *Ctx, ac apiCase, tape *simrt.Tape) (vs []apiViolation, e
 				continue
 			}
 			evals++
+			Beat()
 			if e != nil && w.FaultsFired["write:EIO"] == 0 {
 				add("api-error|"+what+":"+normErr(e), fmt.Sprintf("op %d %s(%q) failed although no fault had been injected yet: %v", i, what, head([]byte(k)), e))
 				bad = true
@@ -250,6 +252,7 @@ func runAPIFaultCase(c *Ctx, ac apiCase, tape *simrt.Tape) (vs []apiViolation, e
 	// the process is gone (cleanly closed or not): recover the directory as it is
 	rec := recoverDir(dir, dbOpts{Memstore: ac.Memstore, Threshold: 10, MaxSize: 1 << 30, Ratio: 1, WriteBuf: 4096, ReadBuf: 4096, Compactions: true}, apiKeys[1:], simrt.NewTape(7), false)
 	evals++
+	Beat()
 	if rec.openErr != nil {
 		add("open-error-after-failed-call|"+normErr(rec.openErr), fmt.Sprintf("re-opening after a call failed with an injected WAL write error: %v", rec.openErr))
 		return
@@ -309,6 +312,7 @@ func runAPICase(c *Ctx, ac apiCase, tape *simrt.Tape, count bool) (vs []apiViola
 				vB, eB := dbB.GetBytes(bytesArg(k, false))
 				vS, eS := dbS.Get(k)
 				evals++
+				Beat()
 				want, ok := model[k]
 				gotOK := eB == nil
 				if errClass(eB) == "error" {
@@ -336,6 +340,7 @@ func runAPICase(c *Ctx, ac apiCase, tape *simrt.Tape, count bool) (vs []apiViola
 				eS := dbS.Put(k, v)
 				eB := dbB.PutBytes(bytesArg(k, op.Nil), bytesArg(v, op.Nil))
 				evals++
+				Beat()
 				if (eS == nil) != (eB == nil) {
 					add("flavours-disagree|put", fmt.Sprintf("%s: Put returned %v, PutBytes returned %v", desc, eS, eB))
 					closeBoth()
@@ -361,6 +366,7 @@ func runAPICase(c *Ctx, ac apiCase, tape *simrt.Tape, count bool) (vs []apiViola
 				eS := dbS.Delete(k)
 				eB := dbB.DeleteBytes(bytesArg(k, op.Nil))
 				evals++
+				Beat()
 				if (eS == nil) != (eB == nil) {
 					add("flavours-disagree|delete", fmt.Sprintf("%s: Delete returned %v, DeleteBytes returned %v", desc, eS, eB))
 					closeBoth()
@@ -380,6 +386,7 @@ func runAPICase(c *Ctx, ac apiCase, tape *simrt.Tape, count bool) (vs []apiViola
 				vS, eS := dbS.Get(k)
 				vB, eB := dbB.GetBytes(bytesArg(k, op.Nil))
 				evals++
+				Beat()
 				if errClass(eS) != errClass(eB) || !bytes.Equal([]byte(vS), vB) {
 					add("flavours-disagree|get", fmt.Sprintf("%s): Get = (%q, %s), GetBytes = (%q, %s)", desc, head([]byte(vS)), errClass(eS), head(vB), errClass(eB)))
 					closeBoth()
@@ -393,6 +400,7 @@ func runAPICase(c *Ctx, ac apiCase, tape *simrt.Tape, count bool) (vs []apiViola
 					desc := fmt.Sprintf("op %d on a %s handle: ", i, state)
 					eS, eB := hS.Put(k, v), hB.PutBytes([]byte(k), []byte(v))
 					evals++
+					Beat()
 					if (eS == nil) != (eB == nil) {
 						add("flavours-disagree|put-"+state, fmt.Sprintf("%sPut returned %v, PutBytes returned %v", desc, eS, eB))
 						return false
@@ -404,6 +412,7 @@ func runAPICase(c *Ctx, ac apiCase, tape *simrt.Tape, count bool) (vs []apiViola
 					}
 					eS, eB = hS.Delete(apiKeys[1]), hB.DeleteBytes([]byte(apiKeys[1]))
 					evals++
+					Beat()
 					if (eS == nil) != (eB == nil) {
 						add("flavours-disagree|delete-"+state, fmt.Sprintf("%sDelete returned %v, DeleteBytes returned %v", desc, eS, eB))
 						return false
@@ -416,6 +425,7 @@ func runAPICase(c *Ctx, ac apiCase, tape *simrt.Tape, count bool) (vs []apiViola
 					vS, eS := hS.Get(k)
 					vB, eB := hB.GetBytes([]byte(k))
 					evals++
+					Beat()
 					if errClass(eS) != errClass(eB) || !bytes.Equal([]byte(vS), vB) {
 						add("flavours-disagree|get-"+state, fmt.Sprintf("%sGet = (%q, %s), GetBytes = (%q, %s)", desc, head([]byte(vS)), errClass(eS), head(vB), errClass(eB)))
 						return false
@@ -425,6 +435,7 @@ func runAPICase(c *Ctx, ac apiCase, tape *simrt.Tape, count bool) (vs []apiViola
 				if op.Misuse&4 != 0 {
 					eS, eB := dbS.Open(), dbB.Open()
 					evals++
+					Beat()
 					c.Count("probe:second-open-of-an-open-database", 1)
 					if (eS == nil) != (eB == nil) {
 						add("flavours-disagree|second-open", fmt.Sprintf("op %d: second Open returned %v and %v on twin databases", i, eS, eB))
@@ -447,6 +458,7 @@ func runAPICase(c *Ctx, ac apiCase, tape *simrt.Tape, count bool) (vs []apiViola
 				if op.Misuse&8 != 0 {
 					e1, e2 := dbS.Close(), dbB.Close()
 					evals++
+					Beat()
 					c.Count("probe:second-close", 1)
 					if (e1 == nil) != (e2 == nil) {
 						add("flavours-disagree|second-close", fmt.Sprintf("op %d: second Close returned %v and %v on twin databases", i, e1, e2))
@@ -475,6 +487,7 @@ func runAPICase(c *Ctx, ac apiCase, tape *simrt.Tape, count bool) (vs []apiViola
 					}
 					e1, e2 := nS.Close(), nB.Close()
 					evals++
+					Beat()
 					if (e1 == nil) != (e2 == nil) {
 						add("flavours-disagree|close-not-yet-opened", fmt.Sprintf("op %d: Close of a not yet opened database returned %v and %v on twin databases", i, e1, e2))
 						return
@@ -527,6 +540,7 @@ func runAPICase(c *Ctx, ac apiCase, tape *simrt.Tape, count bool) (vs []apiViola
 	// final clean reopen of the byte flavour directory, plus crash images right after each rejected call
 	final := recoverDir(dirB, dbOpts{Memstore: ac.Memstore, Threshold: 10, MaxSize: 1 << 30, Ratio: 1, WriteBuf: 4096, ReadBuf: 4096, Compactions: true}, apiKeys, simrt.NewTape(1), false)
 	evals++
+	Beat()
 	if v := judgeExact(final, model, "after-final-clean-reopen"); v != nil {
 		vs = append(vs, *v)
 		return
@@ -541,6 +555,7 @@ func runAPICase(c *Ctx, ac apiCase, tape *simrt.Tape, count bool) (vs []apiViola
 		}
 		rec := recoverImage(c, m, dbOpts{Memstore: ac.Memstore, Threshold: 10, MaxSize: 1 << 30, Ratio: 1, WriteBuf: 4096, ReadBuf: 4096, Compactions: true}, apiKeys, simrt.NewTape(int64(sn.seq)), false)
 		evals++
+		Beat()
 		imgs = append(imgs, m.Hash())
 		if v := judgeExact(rec, sn.model, "crash-image-after-rejected-call"); v != nil {
 			v.detail += " [image taken right after " + sn.after + " returned an error]"
